@@ -30,15 +30,15 @@ def run(ctx):
     b = ctx.go_test_binary("", "h_estargz", module_dir="estargz")
     if b:
         ctx.correspond(b, "TestVerifC14", "svdriver_c14", "c14",
-                       env={"VERIF_N": 1500 if quick else 40000,
-                            "VERIF_NBUILD": 250 if quick else 6000},
+                       env={"VERIF_N": 1000 if quick else 30000,
+                            "VERIF_NBUILD": 150 if quick else 4000},
                        timeout=600 if quick else 3000)
     return ctx.finish(
         level="proof",
         rule="tars over a small name universe (6 directories x 6 leaves, every spelling /x ./x ../x // /./ zz/../, "
              "root entries, implicit parents, hardlinks to files/hardlinks/directories/the root/nothing, duplicates "
              "changing spelling and type, input landmarks and TOC names, archive and shuffled order) x prioritized "
-             "lists (existing, missing, root, directories, repeated) x allow-not-found; 38 hand-written scenarios "
+             "lists (existing, missing, root, directories, repeated) x allow-not-found; 39 hand-written scenarios "
              "first; in-package sortEntries compared entry-for-entry with the model, end-to-end Build under 8 chunk "
              "sizes x 7 min-chunk-sizes x 7 worker counts x 4 gzip levels compared on tar order and TOC chunk list; "
              "the C14 predicate (incl. compressed offsets vs the landmark offset) is evaluated on the implementation; "
